@@ -45,3 +45,24 @@ def top_loops(fn):
 
 def body_without_docstring(fn):
     return [s for s in fn.body if not (isinstance(s, ast.Expr) and isinstance(s.value, ast.Constant))]
+
+
+def hoisted_callable_defs(prologue, loop_body=()):
+    """Statements of the prologue that only DEFINE a callable used by the loop (name = functools.partial(...),
+    name = lambda ..., a nested def): the loop body is summarised with them prepended - moving a pure definition into
+    the loop changes nothing, provided the loop does not rebind the name."""
+    rebound = set()
+    for st in loop_body:
+        for n in ast.walk(st):
+            if isinstance(n, ast.Name) and isinstance(n.ctx, ast.Store):
+                rebound.add(n.id)
+    out = []
+    for st in prologue:
+        if isinstance(st, ast.FunctionDef) and st.name not in rebound:
+            out.append(st)
+        elif isinstance(st, ast.Assign) and len(st.targets) == 1 and isinstance(st.targets[0], ast.Name) and \
+                st.targets[0].id not in rebound:
+            v = st.value
+            if isinstance(v, ast.Lambda) or (isinstance(v, ast.Call) and ast.unparse(v.func) in ("partial", "functools.partial")):
+                out.append(st)
+    return out
